@@ -539,11 +539,19 @@ func floatArgs(rt *rapid.T, xs []float64, w int, sh *Shape) []any {
 			if w == 4 && rapid.Bool().Draw(rt, "f4unrounded") {
 				// an F4 item is documented to take float64 arguments: pass values that are NOT float32-exact
 				// but round (to nearest) to the intended float32, so the logical value is unchanged
+				// ... either barely off the float32 value, or almost half a float32 ulp away from it (close
+				// to the midpoint between two neighbouring float32 values: a renderer or a comparison that
+				// works on the float64 instead of the float32 the item stands for goes wrong exactly there)
+				near := rapid.Bool().Draw(rt, "f4nearMidpoint")
 				src = mapSlice(seg, func(x float64) float64 {
 					if x == 0 || math.IsNaN(x) || math.IsInf(x, 0) {
 						return x
 					}
-					for _, f := range []float64{1 + 1e-9, 1 - 1e-9} {
+					factors := []float64{1 + 1e-9, 1 - 1e-9}
+					if near {
+						factors = []float64{1 + 2.95e-8, 1 - 2.95e-8, 1 + 2.2e-8, 1 - 2.2e-8, 1 + 1.48e-8, 1 - 1.48e-8, 1 + 1e-9, 1 - 1e-9}
+					}
+					for _, f := range factors {
 						if y := x * f; float64(float32(y)) == x && y != x {
 							return y
 						}
